@@ -11,7 +11,7 @@ from haiway import MISSING, Missing, State
 
 __all__ = [
     "Any", "Callable", "Color", "GBox", "Impl", "Inner", "InnerSub", "Literal", "MISSING", "Mapping", "Missing",
-    "Node", "NotImpl", "Optional", "Path", "Proto", "Self", "Sequence", "Set", "Size", "State", "UUID", "Union",
+    "MaybeImpl", "Node", "NotImpl", "Optional", "Path", "Proto", "Self", "Sequence", "Set", "Size", "State", "UUID", "Union",
     "date", "datetime", "time", "timedelta",
 ]  # fmt: skip
 
@@ -45,6 +45,24 @@ class Impl:
 class NotImpl:
     def walk(self) -> int:
         return 1
+
+
+class MaybeImpl:
+    """conformance to the protocol is a property of the INSTANCE here (the member is assigned per instance), not of the class"""
+
+    def __init__(self, ok: bool) -> None:
+        self.ok = ok
+        if ok:
+            self.run = lambda: 1
+
+    def __eq__(self, other):
+        return type(other) is MaybeImpl and other.ok == self.ok
+
+    def __hash__(self):
+        return 8 + int(self.ok)
+
+    def __repr__(self):
+        return f"MaybeImpl({self.ok})"
 
 
 class Inner(State):
